@@ -157,7 +157,12 @@ class G:
         j = r.choice([" ", " ", ",", ", ", ""])
         if j == "":
             self.feats.add("transform.no-separator")
-        return j.join(parts)
+        out = j.join(parts)
+        if r.random() < 0.2:
+            # the grammar allows white space before and after the list
+            out = r.choice(["", " ", "\n    "]) + out + r.choice([" ", "\n  ", "\t", "  "])
+            self.feats.add("transform.outer-whitespace")
+        return out
 
     def presentation(self):
         r = self.r
